@@ -138,7 +138,7 @@ func genC10(seed uint64, run int, tier string) *RunSpec {
 	r := NewRand(seed, run)
 	g := NewGen(r)
 	spec := &RunSpec{Property: "C10", Family: "c10-history", Seed: seed, Run: run}
-	cat := genPrograms(r, g, 1+r.Intn(3), true, Entries)
+	cat := genPrograms(r, g, 1+r.Intn(3), true, append(append([]string{}, Entries...), BaseEntries...))
 	// distinct operations (program x entry x data), each with its own tag
 	nd := 2 + r.Intn(4)
 	var distinct []OpSpec
@@ -156,6 +156,7 @@ func genC10(seed uint64, run int, tier string) *RunSpec {
 	}
 	spec.Files = g.FileSpecs(1_700_000_000_000_000_000)
 	spec.Engine = randomEngine(r, g.Eng)
+	spec.Engine.BaseFill = &DataSpec{Shape: Pick(r, []string{"map", "struct"}), Tag: "zzbzz", Items: 2, Flag: true, Variant: 1}
 	spec.Kernel = randomKernelSeq(r)
 	spec.Note = "features=" + strings.Join(g.enabled(), ",")
 	return spec
